@@ -48,7 +48,7 @@ def main():
         ],
         "checks": [],
         "not_applicable": [{"property_id": k, "reason": v} for k, v in sorted(PENDING.items())],
-        "notes": "Engines per check: SEQ = sequential model-based histories, CONC = generated concurrent programs with history checkers (several profiles, see DESIGN.md 8), FUZZ = libFuzzer targets (thorough tier only), ACK / SKETCH as named. All checks: ./run <id> quick|thorough ; replay: ./run <id> --replay <file>. Exit 0 held, 1 VIOLATION, 2 inconclusive/infrastructure. Known findings: known_findings.json.",
+        "notes": "Engines per check: SEQ = sequential model-based histories, CONC = generated concurrent programs with history checkers (several profiles, see DESIGN.md 8), VOLUME = generated bulk histories of thousands of keys against a plain map, FUZZ = libFuzzer targets (thorough tier only), ACK / SKETCH as named; directed regression scenarios of repaired findings run inside the checks concerned. All checks: ./run <id> quick|thorough ; replay: ./run <id> --replay <file>. Exit 0 held, 1 VIOLATION, 2 inconclusive/infrastructure. Known findings: known_findings.json.",
     }
     for pid, (engine, technique, text, note, ref) in sorted(CHECKS.items()):
         manifest["checks"].append({
